@@ -367,6 +367,110 @@ type c08Gen struct {
 	w     *c08World
 	nextH int
 	maxSz int
+	queue []c08Op // operations of a planned burst, emitted before anything else
+}
+
+// planFlushRace queues a burst that keeps an explicit background flush in
+// flight while the same file is modified: (optionally a save or drain first,
+// so that the file consists of stored segments) two handles on one file,
+// 2-4 small overwrites scattered over the file (each becomes its own small
+// in-memory segment between stored ones, and several of them get packed into
+// one block), Flush(dir, true) whose PutB is parked by the Keep stub, 1-3
+// small writes through either handle while it is parked (splitting earlier
+// or later stored segments, so that segment indices shift), then the parked
+// writes complete and the file is read back. Random sequences reach this
+// shape only rarely because it needs five steps in order on the same file.
+func (g *c08Gen) planFlushRace() bool {
+	rng, w := g.rng, g.w
+	bs := w.cfg.BS
+	_, files := w.m.walk()
+	var cand []string
+	for _, p := range files {
+		if n, cls := w.m.resolve(p); cls == "" && len(n.data) >= 3 {
+			cand = append(cand, p)
+		}
+	}
+	if len(cand) == 0 {
+		return false
+	}
+	p := cand[rng.Intn(len(cand))]
+	n, _ := w.m.resolve(p)
+	size := len(n.data)
+	small := func() int {
+		m := bs / 2
+		if m < 1 {
+			m = 1
+		}
+		if m > 2 && rng.Chance(2, 3) {
+			m = 1 + m/2
+		}
+		return rng.Range(1, m)
+	}
+	h1, h2 := g.nextH, g.nextH+1
+	g.nextH += 2
+	var q []c08Op
+	switch rng.Intn(4) {
+	case 0, 1:
+		q = append(q, c08Op{K: "save"})
+	case 2:
+		q = append(q, c08Op{K: "drain"})
+	}
+	q = append(q, c08Op{K: "open", H: h1, P: p, Flag: os.O_RDWR},
+		c08Op{K: "open", H: h2, P: p, Flag: rng.PickInt(os.O_WRONLY, os.O_RDWR)})
+	pos := func() int {
+		if rng.Chance(1, 3) {
+			return rng.Range(0, size/bs) * bs
+		}
+		return rng.Range(0, size-1)
+	}
+	k := rng.Range(2, 4)
+	first := size
+	for i := 0; i < k; i++ {
+		off := pos()
+		if off >= size {
+			off = size - 1
+		}
+		if off < first {
+			first = off
+		}
+		q = append(q, c08Op{K: "seek", H: h1, Wh: io.SeekStart, Off: int64(off)},
+			c08Op{K: "write", H: h1, N: small(), Pat: uint32(rng.Uint64())})
+	}
+	dir, _ := c08Split(p)
+	fp := strings.TrimSuffix(dir, "/")
+	if fp == "" {
+		fp = rng.PickStr("", "", ".", "/")
+	} else if rng.Chance(1, 3) {
+		fp = ""
+	}
+	q = append(q, c08Op{K: "flush", P: fp, Short: rng.Chance(5, 6)})
+	for i, m := 0, rng.Range(1, 3); i < m; i++ {
+		off := pos()
+		if first > 0 && rng.Chance(2, 3) {
+			off = rng.Range(0, first-1)
+		}
+		h := h2
+		if rng.Chance(1, 4) {
+			h = h1
+		}
+		q = append(q, c08Op{K: "seek", H: h, Wh: io.SeekStart, Off: int64(off)},
+			c08Op{K: "write", H: h, N: rng.Range(1, 2), Pat: uint32(rng.Uint64())})
+	}
+	if rng.Chance(1, 2) {
+		q = append(q, c08Op{K: "drain"})
+	} else {
+		for i, m := 0, rng.Range(1, 3); i < m; i++ {
+			q = append(q, c08Op{K: "release", N: rng.Intn(4)})
+		}
+	}
+	q = append(q, c08Op{K: "seek", H: h1, Wh: io.SeekStart, Off: 0}, c08Op{K: "readall", H: h1, N: rng.Range(1, 2*bs+2)})
+	if rng.Chance(1, 3) {
+		q = append(q, c08Op{K: "cmp"})
+	}
+	q = append(q, c08Op{K: "close", H: h1}, c08Op{K: "close", H: h2})
+	g.queue = q
+	g.w.cnt["flush_race_bursts"]++
+	return true
 }
 
 func (g *c08Gen) name() string { return g.w.cfg.names[g.rng.Intn(len(g.w.cfg.names))] }
@@ -512,6 +616,14 @@ func (g *c08Gen) next() c08Op {
 	rng := g.rng
 	w := g.w
 	bs := w.cfg.BS
+	if len(g.queue) == 0 && w.cfg.Gate && w.cfg.CW >= 2 && bs >= 2 && rng.Chance(1, 80) {
+		g.planFlushRace()
+	}
+	if len(g.queue) > 0 {
+		op := g.queue[0]
+		g.queue = g.queue[1:]
+		return op
+	}
 	isFile := func(h *c08Handle) bool { return !h.node.dir }
 	nfh := 0
 	for _, h := range w.h {
